@@ -105,22 +105,22 @@ Qed.
 Definition c20_cfg : config :=
   (mkConfig POpenID [GRefreshToken; GAuthorizationCode] [] ["code"] [] false 600 300 IssueAlways true 600 false false "" [] false false 0 false
            false false false false false 0 false false false false false false false false false
-           false false false false false false false "" false []) <| cf_introspection := true |>.
+           false false false false false false false "" false [] false [] CmpNone) <| cf_introspection := true |>.
 Definition c20_client : client :=
-  mkClient 1 false [GRefreshToken; GAuthorizationCode] ["code"] [] "openid" CibaNone false false false false false false false 0 false.
+  mkClient 1 false [GRefreshToken; GAuthorizationCode] ["code"] [] "openid" CibaNone false false false false false false false 0 false None.
 Definition c20_world : world := mkWorld c20_cfg [c20_client].
-Definition c20_grant : gsession := mkGSession 40 33 35 1000%Z 1000%Z 0 GAuthorizationCode "user" 1 "openid" "openid" 0 0 [] [].
+Definition c20_grant : gsession := mkGSession 40 33 35 1000%Z 1000%Z 0 GAuthorizationCode "user" 1 "openid" "openid" 0 0 [] [] [] [].
 Definition c20_session : asession :=
-  mkASession 41 1 "" 0 37 0 0 "" 0 0 1000%Z 1 "" (mkParams 0 "https://c.example/cb" "" "code" "openid" "" "" PkEmpty "" 0 "" 0 "" []) [].
+  mkASession 41 1 "" 0 37 0 0 "" 0 0 1000%Z 1 "" (mkParams 0 "https://c.example/cb" "" "code" "openid" "" "" PkEmpty "" 0 "" 0 "" [] None) [] [].
 Definition c20_store : store := mkStore [] [c20_session] [c20_grant].
 Definition no_jwks_uri : id -> bool := fun _ => false.
 
 (* request 1: a refresh of the grant's token; request 2: an introspection of any token *)
-Definition c20_refresh := refresh_grant c20_world 5 0%Z (mkTReq (mkCred 1 true) no_bind "" 0 "" 35 PkEmpty 0 HgOk BaApprove [] AsNone).
+Definition c20_refresh := refresh_grant c20_world 5 0%Z (mkTReq (mkCred 1 true) no_bind "" 0 "" 35 PkEmpty 0 HgOk BaApprove [] AsNone None).
 Definition c20_introspect := introspect c20_world 0%Z (mkQReq (mkCred 1 true) (PExact 999) true).
 (* request 3: the callback that finishes the session; request 4: any lookup by code *)
-Definition c20_callback := continue_auth c20_world 6 0%Z (mkCbReq 37 (PolSuccess "user" "openid" [])).
-Definition c20_code := code_grant c20_world 7 0%Z (mkTReq (mkCred 1 true) no_bind "" 888 "" 0 PkEmpty 0 HgOk BaApprove [] AsNone).
+Definition c20_callback := continue_auth c20_world 6 0%Z (mkCbReq 37 (PolSuccess "user" "openid" [] [])).
+Definition c20_code := code_grant c20_world 7 0%Z (mkTReq (mkCred 1 true) no_bind "" 888 "" 0 PkEmpty 0 HgOk BaApprove [] AsNone None).
 
 Definition some_race (l1 l2 : list access) : bool := existsb (fun a => existsb (races a) l2) l1.
 Definition race_pairs (l1 l2 : list access) : list (string * string) :=
